@@ -7,7 +7,7 @@ package main
 //     fall-back routes; stops with parents) - EVERY combination of rotations at EVERY library
 //     `range` over a map (the runtime's random start is a choice point) must give a dump
 //     identical, order included, to the parse with all starts at 0.
-// (2) histories: one shared options / extension object, an alphabet of 6 feeds (two with
+// (2) histories: one shared options / extension object, an alphabet of 7 feeds (two with
 //     elevator alerts sharing groups, two NYCT trip feeds, a mixed one, an empty one), EVERY
 //     sequence of <= 3 calls (thorough <= 4) for every bundled configuration (caller's options
 //     with nil Extension, 4 nycttrips, 24 nyctalerts): the last call's result must equal the
@@ -55,8 +55,40 @@ func c06StaticFeed(c *Ctx) *feedModel {
 	return m
 }
 
-func c06MapOrderStatic(c *Ctx) {
+func u32p(v uint32) *uint32 { return &v }
+
+// c06MapOrderStatic: with cycles, the stops form a 3-cycle, a 2-cycle and a self-parent (which
+// link the parser cuts is its business - but it must be the same one every time).
+func c06MapOrderStatic(cycles bool) Harness {
+	return func(c *Ctx) { c06MapOrderStaticRun(c, cycles) }
+}
+
+func c06MapOrderStaticRun(c *Ctx, cycles bool) {
 	m := c06StaticFeed(c)
+	if cycles {
+		st := m.t("stops.txt")
+		p := protoRow(st)
+		for len(st.Rows) < 7 {
+			st.Rows = append(st.Rows, append([]string{}, p...))
+		}
+		ids := []string{"ca", "cb", "cc", "da", "db", "self", "leaf"}
+		parents := []string{"cb", "cc", "ca", "db", "da", "self", "ca"}
+		for r := range st.Rows {
+			st.set(r, "stop_id", ids[r])
+			st.set(r, "parent_station", parents[r])
+			st.set(r, "location_type", "")
+		}
+		stt := m.t("stop_times.txt")
+		for r := range stt.Rows {
+			stt.set(r, "stop_id", ids[r%len(ids)])
+		}
+		if tf := m.t("transfers.txt"); tf != nil {
+			for r := range tf.Rows {
+				tf.set(r, "from_stop_id", ids[r%len(ids)])
+				tf.set(r, "to_stop_id", ids[(r+3)%len(ids)])
+			}
+		}
+	}
 	b := renderFeed(m, presentation{})
 	c.Input(hash64(string(b)), true, func() string { return m.text() })
 	ref, err, ok := parseStaticGuarded(c, b, gtfs.ParseStaticOptions{})
@@ -80,6 +112,174 @@ func c06MapOrderStatic(c *Ctx) {
 	}
 	if len(ref.Services) >= 3 {
 		c.Witness("map_with_3+_entries_ranged")
+	}
+	if cycles {
+		c.Witness("parent_cycles_present")
+	}
+}
+
+// ---------------------------------------------------------------------------------------
+// the wall clock is an environment answer too: the same bytes and configuration under
+// different clocks (the overlay of package time lets the checker decide what Now returns)
+
+func c06ClockFeeds() ([][]byte, []string) {
+	t0 := int64(1700003600) // first stop time of the unassigned trips
+	mk := func(ts *uint64, ents ...*gtfsrt.FeedEntity) []byte {
+		m := newFeed(ts)
+		m.Entity = ents
+		return marshalFeed(m)
+	}
+	nyct := func(id, trip string, assigned bool, first int64) *gtfsrt.FeedEntity {
+		td := &gtfsrt.TripDescriptor{TripId: sp(trip), RouteId: sp("L"), StartDate: sp("20231114")}
+		proto.SetExtension(td, gtfsrt.E_NyctTripDescriptor, &gtfsrt.NyctTripDescriptor{TrainId: sp("0L " + id), IsAssigned: &assigned, Direction: gtfsrt.NyctTripDescriptor_NORTH.Enum()})
+		return &gtfsrt.FeedEntity{Id: sp(id), TripUpdate: &gtfsrt.TripUpdate{Trip: td, StopTimeUpdate: []*gtfsrt.TripUpdate_StopTimeUpdate{
+			{StopId: sp("L01N"), Arrival: &gtfsrt.TripUpdate_StopTimeEvent{Time: cp2(first)}, Departure: &gtfsrt.TripUpdate_StopTimeEvent{Time: cp2(first + 30)}},
+			{StopId: sp("L02N"), Arrival: &gtfsrt.TripUpdate_StopTimeEvent{Time: cp2(first + 120)}}}}}
+	}
+	ents := func() []*gtfsrt.FeedEntity {
+		return []*gtfsrt.FeedEntity{nyct("u1", "060000_L..N", false, t0), nyct("a1", "061000_L..N", true, t0+60), nyct("u2", "062000_L..N", false, t0-7200),
+			{Id: sp("vp"), Vehicle: &gtfsrt.VehiclePosition{Vehicle: &gtfsrt.VehicleDescriptor{Id: sp("V1")}, Timestamp: u64p(uint64(t0))}},
+			elevEntity(elevAlert{"A27", "N", "1"}, 0), plainAlertEntity("plain-1")}
+	}
+	zero, at, before := uint64(0), uint64(t0+10), uint64(t0-3600)
+	return [][]byte{mk(nil, ents()...), mk(&zero, ents()...), mk(&at, ents()...), mk(&before, ents()...)}, []string{"header-without-timestamp", "header-timestamp-0", "header-after-first-stop", "header-before-first-stop"}
+}
+
+func u64p(v uint64) *uint64 { return &v }
+
+var c06Clocks = []struct {
+	name string
+	at   time.Time // zero: the real clock
+}{
+	{"real", time.Time{}},
+	{"1970-01-02", time.Unix(86400, 0)},
+	{"10s-before-first-stop", time.Unix(1700003600-10, 0)},
+	{"10s-after-first-stop", time.Unix(1700003600+10, 0)},
+	{"2h-before-first-stop", time.Unix(1700003600-7300, 0)},
+	{"2100-01-01", time.Date(2100, 1, 1, 0, 0, 0, 0, time.UTC)},
+}
+
+func c06WallClock() Harness {
+	feeds, names := c06ClockFeeds()
+	cfgs := c06Configs()
+	zips := [][]byte{renderFeed(genStaticFeedN(&Ctx{}, false, baseCounts, nil, nil), presentation{})}
+	return func(c *Ctx) {
+		static := c.Free("kind", 2) == 1
+		var dumps []string
+		var desc string
+		if static {
+			desc = "static archive"
+			for _, ck := range c06Clocks {
+				var r *gtfs.Static
+				var err error
+				run := func() { r, err, _ = parseStaticGuarded(c, zips[0], gtfs.ParseStaticOptions{}) }
+				if ck.at.IsZero() {
+					run()
+				} else {
+					withClockAt(ck.at, run)
+				}
+				if err != nil || r == nil {
+					c.Fail("valid-feed-rejected", "%v", err)
+					return
+				}
+				dumps = append(dumps, dumpStatic(r, staticDumpOpts{}))
+			}
+		} else {
+			cfg := cfgs[c.Free("configuration", len(cfgs))]
+			f := c.Free("feed", len(feeds))
+			desc = cfg.name + ": " + names[f]
+			for _, ck := range c06Clocks {
+				var r *gtfs.Realtime
+				var err error
+				var ok bool
+				run := func() { r, err, ok = parseRT(c, append([]byte(nil), feeds[f]...), cfg.mk()) }
+				if ck.at.IsZero() {
+					run()
+				} else {
+					withClockAt(ck.at, run)
+				}
+				if !ok {
+					return
+				}
+				if err != nil {
+					c.Fail("valid-message-rejected", "%s: %v", desc, err)
+					return
+				}
+				dumps = append(dumps, dumpRealtime(r, rtDumpOpts{links: true}))
+			}
+		}
+		c.Input(hash64(desc), true, func() string { return desc + " parsed under the clocks real, 1970-01-02, around the first stop time, 2100-01-01" })
+		c.Steps(len(c06Clocks))
+		c.Outcome(dumps[0])
+		for i := 1; i < len(dumps); i++ {
+			if dumps[i] != dumps[0] {
+				c.Fail("wall-clock-dependent/"+classifyDiff(dumps[0], dumps[i]), "%s: the same bytes and options parse to a different result when the wall clock shows %s\n%s", desc, c06Clocks[i].name, diffLines(dumps[0], dumps[i]))
+				return
+			}
+		}
+		c.Witness("parsed_under_6_clocks")
+	}
+}
+
+// ---------------------------------------------------------------------------------------
+// rejected inputs: the buffer (up to its capacity) must come back untouched as well
+
+func c06RejectedInputs() Harness {
+	cfgs := c06Configs()
+	good := c06Feeds()[5]
+	html := []byte("<html><head><title>503 Service Temporarily Unavailable</title></head><body><h1>Service Temporarily Unavailable</h1><p>try again later</p></body></html>")
+	noID := marshalFeedPartial(func() *gtfsrt.FeedMessage {
+		m := newFeed(cp(&tsAlphabet[0]))
+		m.Entity = []*gtfsrt.FeedEntity{{TripUpdate: &gtfsrt.TripUpdate{Trip: &gtfsrt.TripDescriptor{TripId: sp("a-trip-with-a-rather-long-identifier-0123456789")}}}}
+		return m
+	}())
+	inputs := [][]byte{good[:len(good)/2], good[:len(good)-1], html, html[:33], html[:40], noID, append(append([]byte{}, good...), 0xff, 0xff, 0xff), {}}
+	names := []string{"valid feed cut in half", "valid feed minus its last byte", "HTML error page", "33 bytes of HTML", "40 bytes of HTML", "entity without id (required field)", "valid feed + 3 stray bytes", "empty"}
+	zip := renderFeed(genStaticFeedN(&Ctx{}, false, baseCounts, nil, nil), presentation{})
+	zinputs := [][]byte{zip[:len(zip)/2], zip[:len(zip)-1], html, append(append([]byte{}, zip[:200]...), zip[260:]...), {}}
+	znames := []string{"archive cut in half", "archive minus its last byte", "HTML error page", "archive with 60 bytes removed", "empty"}
+	return func(c *Ctx) {
+		static := c.Free("kind", 2) == 1
+		spare := []int{0, 1, 64}[c.Free("spare_capacity", 3)]
+		var src []byte
+		var desc string
+		var cfg rtConfig
+		if static {
+			k := c.Free("input", len(zinputs))
+			src, desc = zinputs[k], "ParseStatic: "+znames[k]
+		} else {
+			cfg = cfgs[c.Free("configuration", len(cfgs))]
+			k := c.Free("input", len(inputs))
+			src, desc = inputs[k], cfg.name+": "+names[k]
+		}
+		desc += fmt.Sprintf(" (spare capacity %d)", spare)
+		buf := make([]byte, len(src), len(src)+spare)
+		copy(buf, src)
+		for i := len(src); i < cap(buf); i++ {
+			buf[:cap(buf)][i] = 0xA5
+		}
+		before := string(buf[:cap(buf)])
+		c.Input(hash64(desc), true, func() string { return desc })
+		var err error
+		if static {
+			_, err, _ = parseStaticGuarded(c, buf, gtfs.ParseStaticOptions{})
+		} else {
+			var ok bool
+			_, err, ok = parseRT(c, buf, cfg.mk())
+			if !ok {
+				return
+			}
+		}
+		c.Steps(1)
+		if err == nil {
+			c.Outcome("accepted")
+		} else {
+			c.Outcome("rejected")
+			c.Witness("rejected_input")
+		}
+		if string(buf[:cap(buf)]) != before {
+			c.Fail("input-mutated-on-rejection", "%s: the parser modified the caller's buffer (within its capacity) - error: %v", desc, err)
+		}
 	}
 }
 
@@ -167,6 +367,17 @@ func c06FeedsWith(startDate, idSuffix string) [][]byte {
 		return &gtfsrt.FeedEntity{Id: sp(id), TripUpdate: tu}
 	}
 	merc := c17MercuryEntity(nil, mercurySpec{prio1: 29, prio2: -2, prefix: 0, hasExt: true})
+	// NYCT oddities: assigned trips without a train id (as a trip update and as a vehicle), an
+	// unassigned trip without stop times, a stop time update without a stop id on route M
+	odd := func(id, trip string, vehicle bool) *gtfsrt.FeedEntity {
+		td := &gtfsrt.TripDescriptor{TripId: sp(trip + idSuffix), RouteId: sp("M"), StartDate: sp(startDate)}
+		yes := true
+		proto.SetExtension(td, gtfsrt.E_NyctTripDescriptor, &gtfsrt.NyctTripDescriptor{IsAssigned: &yes})
+		if vehicle {
+			return &gtfsrt.FeedEntity{Id: sp(id), Vehicle: &gtfsrt.VehiclePosition{Trip: td, StopId: sp("M18N")}}
+		}
+		return &gtfsrt.FeedEntity{Id: sp(id), TripUpdate: &gtfsrt.TripUpdate{Trip: td, StopTimeUpdate: []*gtfsrt.TripUpdate_StopTimeUpdate{{StopSequence: u32p(3)}, {StopId: sp("M16N")}}}}
+	}
 	return [][]byte{
 		mk(),
 		mk(elevEntity(elevAlert{"A27", "N", "1"}, 0), elevEntity(elevAlert{"A27", "S", "1"}, 1)),
@@ -174,10 +385,11 @@ func c06FeedsWith(startDate, idSuffix string) [][]byte {
 		mk(nyctTU("e1", "063000_M..S20R", "M", true, "M11N", "M12N"), nyctTU("e2", "064000_M..S20R", "M", false, "M16S")),
 		mk(nyctTU("e1", "070000_J..N20R", "J", false, "M11N"), &gtfsrt.FeedEntity{Id: sp("vp"), Vehicle: &gtfsrt.VehiclePosition{Vehicle: &gtfsrt.VehicleDescriptor{Id: sp("V1")}, Trip: &gtfsrt.TripDescriptor{TripId: sp("plain")}}}),
 		mk(merc, nyctTU("e1", "063000_M..S20R", "M", true, "M11N"), elevEntity(elevAlert{"A27", "N", "1"}, 0)),
+		mk(odd("o1", "071000_M..N20R", false), odd("o2", "071000_M..N20R", true), odd("o3", "072000_M..N20R", false), nyctTU("o4", "073000_M..S20R", "M", false)),
 	}
 }
 
-var c06FeedNames = []string{"empty", "elevators-1", "elevators-2", "nyct-trips-1", "nyct-trips-2", "mixed"}
+var c06FeedNames = []string{"empty", "elevators-1", "elevators-2", "nyct-trips-1", "nyct-trips-2", "mixed", "nyct-oddities"}
 
 type rtConfig struct {
 	name   string
@@ -426,7 +638,8 @@ func init() {
 	register(&Check{
 		ID:    "C06",
 		Level: "model_checking",
-		Rule: "(1) every combination of iteration starts at every library map range (choice points owned through the runtime overlay) for a static archive with 3 services/3 shapes/3 trips/3 sibling stops and a realtime message with 3 id-bearing vehicles, 3 trips and an alert with 3 fall-back routes; (2) all call sequences of <= 3 (thorough <= 5) over 6 feeds on ONE shared options/extension object for each of 30 configurations (nil Extension, explicit no-op, 4 nycttrips with and without Timezone, 24 nyctalerts), and all sequences of <= 3 static parses over 3 archives x inherit option; (3) relation (bytes, configuration) -> dump over every parse of the run, across worker processes; (4) all histories of <= 3 (thorough 4) calls over {static archive in New_York / Kolkata / an unknown zone, realtime feed under New_York / UTC / London / two fixed zones both named EST} each executed in its own pristine process and compared call by call with single-call pristine processes; " +
+		Rule: "(1) every combination of iteration starts at every library map range (choice points owned through the runtime overlay) for a static archive with 3 services/3 shapes/3 trips/3 sibling stops and a realtime message with 3 id-bearing vehicles, 3 trips and an alert with 3 fall-back routes; (2) all call sequences of <= 3 (thorough <= 5) over 7 feeds on ONE shared options/extension object for each of 30 configurations (nil Extension, explicit no-op, 4 nycttrips with and without Timezone, 24 nyctalerts), and all sequences of <= 3 static parses over 3 archives x inherit option; (3) relation (bytes, configuration) -> dump over every parse of the run, across worker processes; (4) all histories of <= 3 (thorough 4) calls over {static archive in New_York / Kolkata / an unknown zone, realtime feed under New_York / UTC / London / two fixed zones both named EST} each executed in its own pristine process and compared call by call with single-call pristine processes; " +
+			"(5) the same archive / message x 30 configurations parsed under 6 wall clocks (real, 1970, around the first stop time of unassigned NYCT trips, 2100; headers with / without / zero timestamp): identical dumps; the map-order archive also with a 3-cycle, a 2-cycle and a self-parent among its stops; (6) rejected inputs (truncated, HTML, missing required field, stray bytes) with 0 / 1 / 64 bytes of spare capacity: buffer unchanged up to its capacity; " +
 			"non-trivial = distinct histories of >= 2 calls or inputs with a >= 3-entry library map; oracle = differential (rotated vs. fixed order, reused vs. fresh object) with content and order compared",
 		Assumptions: []string{"library maps are single-bucket (<= 8 entries) in these inputs, so rotations are all achievable orders; uncontrolled_maps counts any exception", "process-level state (package variables) is exercised by running histories in 16 separate worker processes that must all agree"},
 		Scenarios: func(tier string) []*Scenario {
@@ -435,7 +648,10 @@ func init() {
 				n, np = 5, 4
 			}
 			return []*Scenario{
-				{Name: "map-orders/static", Bound: -1, Run: c06MapOrderStatic},
+				{Name: "map-orders/static", Bound: -1, Run: c06MapOrderStatic(false)},
+				{Name: "map-orders/static-with-parent-cycles", Bound: -1, Run: c06MapOrderStatic(true)},
+				{Name: "wall-clock", Bound: -1, Run: c06WallClock()},
+				{Name: "rejected-inputs", Bound: -1, Run: c06RejectedInputs()},
 				{Name: "map-orders/realtime", Bound: -1, Run: c06MapOrderRealtime},
 				{Name: fmt.Sprintf("histories<=%d/realtime", n), Bound: -1, Run: c06History(n)},
 				{Name: "histories<=3/static", Bound: -1, Run: c06StaticHistory},
